@@ -952,6 +952,11 @@ func renderings(v ssa.Value, sx *Symx) []rendering {
 	forms := []form{{x, b.Op, y, true}, {y, swap[b.Op], x, true}, {x, neg[b.Op], y, false}, {y, swap[neg[b.Op]], x, false}}
 	// unsigned comparisons with zero
 	isUnsigned := func(v ssa.Value) bool {
+		if c, ok := v.(*ssa.Call); ok {
+			if b, ok := c.Call.Value.(*ssa.Builtin); ok && (b.Name() == "len" || b.Name() == "cap") {
+				return true // never negative
+			}
+		}
 		bt, ok := v.Type().Underlying().(*types.Basic)
 		return ok && bt.Info()&types.IsUnsigned != 0
 	}
